@@ -43,6 +43,16 @@ METHODS = ["get", "set", "delete", "get_many", "incr"]
 ITEM_FORMS = ["__getitem__", "__getitem__/miss", "__setitem__", "__delitem__"]
 
 
+class Falsy:
+    """a successful result that is falsy without being None (an empty value, a counter at zero): still the result"""
+
+    def __bool__(self):
+        return False
+
+    def __len__(self):
+        return 0
+
+
 class InnerBase:
     """Scripted inner client (the methods live on a base class: wrapped clients are often subclasses)."""
 
@@ -53,6 +63,7 @@ class InnerBase:
         self.objs = {}
         self.expect_args = None
         self.miss = False           # a successful call returns None (a miss)
+        self.falsy = False          # every successful call returns a falsy object that is not None
         self.loose_kwargs = False   # item access: the wrapper chooses the keyword arguments itself
 
     def _do(self, name, args, kwargs):
@@ -64,7 +75,7 @@ class InnerBase:
         self.log.append({"e": "call", "o": o, "id": self.n, "d": "same-args" if same else "changed-args",
                          "m": name})
         if o == "ok":
-            obj = None if self.miss else object()
+            obj = None if self.miss else Falsy() if self.n % 2 == 0 or self.falsy else object()
             self.objs[self.n] = obj
             return obj
         exc = CLS[o](f"attempt {self.n}")
@@ -140,6 +151,7 @@ def execute(RetryingClient, attempts, rf, dnr, outcomes, variant, form=None):
     if form is not None:
         inner.loose_kwargs = True
         inner.miss = form == "__getitem__/miss"
+        inner.falsy = form == "__getitem__" and variant % 2 == 1
         inner.expect_args = ((args[0],), {}) if form != "__setitem__" else (args, {})
     try:
         if form is None:
